@@ -169,3 +169,7 @@ impl<K: Hash + Eq, V, E: OnEvictCallback, S: BuildHasher> RawLRU<K, V, E, S> {
 #[cfg(kani)]
 #[path = "/verif/kani/harness_raw.rs"]
 pub(crate) mod harness;
+
+#[cfg(kani)]
+#[path = "/verif/kani/harness_raw_iter.rs"]
+mod harness_iter;
